@@ -352,7 +352,8 @@ class ShadowStore:
                     diff = [k for k in snap2 if snap2[k] != info["snap"].get(k)]
                     self.viol("C07", "illformed_changed_state", f"{self.kind}:{op}:{cls}:state-changed:{','.join(diff)}",
                               {"op": op, "class": cls, "changed": diff})
-                    self.dead = True
+                    # the call was rejected, so the model (state unchanged) stays the reference: whatever the
+                    # changed store does next (over-admission, refusing the owner's put) is judged as usual
             self.settle()
             return
         # ---------------- well-formed calls
@@ -678,9 +679,24 @@ class ShadowStore:
                           f"{kind}:{self.mode}:never-reserved-item-served-ahead-of-{'younger' if lifo else 'older'}-{what}-item",
                           {"served": x.iid, "skipped": y.iid, "skipped_status": y.status,
                            "granted_get_cancels_so_far": self.n_granted_get_cancels})
+                if kind == "fleet":
+                    self.viol("C14", "F4_loading_order", f"fleet:delivered-items-not-handed-out-in-loading-order:skipped-{what}-item",
+                              {"served": x.iid, "skipped": y.iid, "granted_get_cancels_so_far": self.n_granted_get_cancels})
                 return
         else:
             mon.counters["c06_released_item_rebound"] += 1
+            # released items among themselves: availability order as well (strict reading of the FIFO / LIFO clause)
+            if lifo:
+                bad = [y for y in cands if y.status == "released" and y.ready_key > x.ready_key]
+            else:
+                bad = [y for y in cands if y.status == "released" and y.ready_key < x.ready_key]
+            if bad:
+                y = bad[0]
+                self.viol("C06", "released_order", f"{kind}:{self.mode}:released-item-served-ahead-of-{'younger' if lifo else 'older'}-released-item",
+                          {"served": x.iid, "skipped": y.iid, "granted_get_cancels_so_far": self.n_granted_get_cancels})
+                if kind == "fleet":
+                    self.viol("C14", "F4_loading_order", "fleet:delivered-items-not-handed-out-in-loading-order:skipped-released-item",
+                              {"served": x.iid, "skipped": y.iid})
         if self.n_granted_get_cancels == 0:
             best = max(U, key=lambda u: u.ready_key) if lifo else min(U, key=lambda u: u.ready_key)
             if kind == "filter" and rec.filter is not None and getattr(rec.filter, "user", False):
